@@ -9,17 +9,18 @@ use yuvxyb::{ColorPrimaries as CP, Pixel, Rgb, TransferCharacteristic as TC, Yuv
 
 fn encode<T: Pixel>(c: &Cfg, px: &[[f32; 3]]) -> Result<[Vec<u16>; 3], String> {
     let len = px.len();
-    let rgb = Rgb::new(px.to_vec(), len, 1, TC::BT1886, CP::BT709).map_err(|e| format!("Rgb::new {e:?}"))?;
+    let (w, h) = shape_of(len);
+    let rgb = Rgb::new(px.to_vec(), w, h, TC::BT1886, CP::BT709).map_err(|e| format!("Rgb::new {e:?}"))?;
     let cfg = cfg444(c.n, c.full, c.m);
     let yuv = guarded(|| Yuv::<T>::try_from((&rgb, cfg)))?.map_err(|e| format!("conversion error {e:?}"))?;
-    if yuv.width() != len || yuv.height() != 1 {
+    if yuv.width() != w || yuv.height() != h {
         return Err(format!("dims changed to {}x{}", yuv.width(), yuv.height()));
     }
     if yuv.config() != cfg {
         return Err(format!("config changed to {:?}", yuv.config()));
     }
     for p in yuv.data() {
-        if p.cfg.width != len || p.cfg.height != 1 {
+        if p.cfg.width != w || p.cfg.height != h {
             return Err(format!("plane size {}x{}", p.cfg.width, p.cfg.height));
         }
     }
